@@ -50,6 +50,27 @@ def soStep (m0 : SoSt) (x : Item) : SoSt :=
 
 def startOnceOk (tr : List Item) : Bool := accepts soStep {} tr
 
+/-! ### … at most once per run (the part of the above that does not look at values) -/
+
+structure FoSt where
+  running : Bool := false
+  fired : Bool := false
+  savedRunning : Bool := false
+  savedFired : Bool := false
+  bad : Bool := false
+  deriving DecidableEq, Repr
+
+instance : HasBad FoSt := ⟨FoSt.bad⟩
+
+def foStep (m : FoSt) : Item → FoSt
+  | .ev (.start _) => { m with running := true, fired := false, savedRunning := m.running, savedFired := m.fired }
+  | .ob .raisedRestart => { m with running := m.savedRunning, fired := m.savedFired }
+  | .ob (.startFired _) => if m.running && !m.fired then { m with fired := true } else { m with bad := true }
+  | .ob (.stopReturned _) => { m with running := false }
+  | _ => m
+
+def firesOnceOk (tr : List Item) : Bool := accepts foStep {} tr
+
 /-! ### After `stop()` returns nothing is left running and nothing happens until the next `start()` -/
 
 structure QSt where
